@@ -552,7 +552,9 @@ func (w *World) KeepAliveExpire(c int) {
 	w.op(fmt.Sprintf("br drop %d", c))
 	w.record(ev{kind: "stim-drop", conn: c})
 	w.o.Count("stim/keepalive-expiry")
-	time.Sleep(time.Minute)
+	// 1.5 x keep alive (2 s) has to pass — but stay well below the token timeout (30 s): other connections may have
+	// unacknowledged deliveries with a full window, and that is a different (legitimate) reason for the broker to close them
+	time.Sleep(6 * time.Second)
 	w.settle()
 }
 
